@@ -159,7 +159,7 @@ theorem C11_repaired_subresource_repeated :
     stsImpl .header ⟨sp!"GET", [date], sp!"/bkt/k", [(sp!"acl", []), (sp!"acl", [])], none⟩ =
       sp!"GET\n\n\nTue, 27 Mar 2007 19:36:42 +0000\n/bkt/k?acl&acl" := by decide +kernel
 
-/-- repaired by 9d4d028 (was finding `vhost-bucket-derivation`, corpus `doc-upload-host-with-port` of
+/-- repaired by c922d5e (was finding `vhost-bucket-derivation`, corpus `doc-upload-host-with-port` of
     `corpus/sigv2e2e.txt`): for the Host of the documentation's Upload example, `static.example.com:8080`,
     the host parser of `prepare` (`SingleDomain`, model `S3V.Host`, C12) derives the bucket the document
     signs, `static.example.com` — it used to derive `static.example.com:8080` — and `prepare` resolves
